@@ -17,7 +17,7 @@ def run(tier):
         'classified reentrant or not from a reviewed table (an unclassified callee aborts the analysis, exit 2); (iii) every '
         'indirect call goes through a parameter or local; (iv) every function names only parameters, locals, such static objects '
         'and stdin/stdout/stderr. With (i)-(iv) a call can neither race with nor be influenced by another call on disjoint '
-        'arguments, for every schedule and history. Decides: absence of library-level shared mutable state. Does NOT decide: '
+        'arguments, for every schedule and history. R10.shared: the factors and permutations handed to the solve-side routines, and the matrix arrays the caller hands to the Fortran bridge, are in no may-write set, so calls that share them read-only cannot race. Decides: absence of library-level shared mutable state. Does NOT decide: '
         'bit-identical floating-point output as such (follows only with platform determinism), uninitialised reads, '
         'thread-safety of libc malloc/stdio and of the vendor BLAS (assumed).')
     chk.assumptions = ['malloc/free/stdio of the C library and the vendor BLAS kernels are thread-safe',
@@ -59,6 +59,7 @@ def run(tier):
                 else:
                     chk.ok('R1.nm', rel + '@' + cfgname, nontrivial=bool(extra))
     init_rule(chk, Program.load(which=('SRC',), cfg='tested'))
+    shared_inputs_rule(chk, Program.load(which=('SRC', 'FORTRAN'), cfg='tested'))
     chk.samples.append('positive control fixtures/r1_static_state.c -> reported mutable: calls, work (expected)')
     return chk.finish()
 
@@ -81,6 +82,25 @@ INIT_TABLE = [
     ('?gsitrf', 'marker', 'as ?gstrf'),
     ('?gsitrf', 'perm_r', 'as ?gstrf'),
 ]
+
+
+def shared_inputs_rule(chk, prog):
+    """objects that concurrent calls may legitimately share - the factors L, U and the permutations during solves, the caller's matrix arrays during
+    a bridge call - are in nobody's may-write set (R10, sound under the no-alias contract): a routine that writes a shared input, even if it
+    restores it before returning, races with the other thread"""
+    from ..rules import r10
+    from ..rules.effects import PathEffects
+    cid = 'R10.shared'
+    chk.clause(cid, 'inputs that concurrent calls may share are never written')
+    eff = PathEffects(prog)
+    ro = {'stat': ['->'], 'info': ['[]']}
+    for p in 'sdcz':
+        r10.maywrite(chk, cid, prog, eff, 'c_fortran_%sgssv_' % p, {'b': ['[]'], 'f_factors': [''], 'info': ['[]']})
+        r10.maywrite(chk, cid, prog, eff, p + 'gstrs', dict(ro, B=['->Store->nzval']))
+        r10.maywrite(chk, cid, prog, eff, 'sp_' + p + 'trsv', dict(ro, x=['[]']))
+        r10.maywrite(chk, cid, prog, eff, p + 'gscon', dict(ro, rcond=['[]']))
+        r10.maywrite(chk, cid, prog, eff, p + 'gsrfs', dict(ro, X=['->Store->nzval'], ferr=['[]'], berr=['[]']))
+        r10.maywrite(chk, cid, prog, eff, 'sp_' + p + 'gemv', {'y': ['[]']})
 
 
 def init_rule(chk, prog):
